@@ -824,6 +824,8 @@ def _parse_obs(text, as_bytes=False):
             raise RuntimeError("unexpected frame keys %r" % (extra,))
         frames.append({"path": f["filepath"], "lineno": f["lineno"], "func": f.get("funcname"), "src": f["source_line"]})
     parsed = {"frames": frames, "type": pe.exc_type, "msg": pe.exc_msg}
+    if pe.source_file != (pe.frames[-1]["filepath"] if pe.frames else None):
+        raise RuntimeError("source_file is not the file of the last entry")
     d = pe.to_dict()
     if d["exc_type"] != pe.exc_type or d["exc_msg"] != pe.exc_msg or d["frames"] != pe.frames:
         raise RuntimeError("to_dict() differs from the attributes")
@@ -900,16 +902,29 @@ def _edit(d, how, step, mods):
 
 
 def _raise_through(entry, expect):
+    from boltons import tbutils
+    cur = None
     try:
         entry(0)
     except Exception as e:     # the exception under observation
         exc = e
+        # the constructors that take "the exception being handled" (no source line is read here)
+        cur = (tbutils.ExceptionInfo.from_current(), tbutils.TracebackInfo.from_traceback())
     else:
         raise RuntimeError("generated program did not raise")
     if type(exc).__name__ != expect:
         raise RuntimeError("generated program raised %r, expected %s" % (exc, expect))
     if exc.__cause__ is not None or exc.__context__ is not None or getattr(exc, "__notes__", None):
         raise RuntimeError("generated program produced a chained exception")
+    # from_current() / from_traceback() with defaults must be the explicit constructors on sys.exc_info()
+    ref = tbutils.ExceptionInfo.from_exc_info(type(exc), exc, exc.__traceback__)
+
+    def places(tbi):
+        return [(c.module_path, c.lineno, c.func_name, c.module_name, c.lasti) for c in tbi.frames]
+    if (cur[0].exc_type, cur[0].exc_msg, places(cur[0].tb_info)) != (ref.exc_type, ref.exc_msg, places(ref.tb_info)) \
+            or places(cur[1]) != places(ref.tb_info) or len(cur[1]) != len(ref.tb_info.frames) \
+            or [c.lineno for c in cur[1]] != [c.lineno for c in ref.tb_info.frames]:
+        raise RuntimeError("ExceptionInfo.from_current()/TracebackInfo.from_traceback() differ from from_exc_info(*sys.exc_info())")
     return exc, exc.__traceback__.tb_next      # skip this harness frame
 
 
@@ -1007,6 +1022,10 @@ def _run_stack(case, d):
                   for c in tbi.to_dict()["frames"]]
         one = tbutils.Callpoint.from_frame(f).tb_frame_str()
         cur = tbutils.Callpoint.from_current(level=2).tb_frame_str()      # level 2 from inside probe = f
+        lvl = tbutils.TracebackInfo.from_frame(level=2, limit=k)          # frame found by level instead of given
+        if [(c.module_path, c.lineno, c.func_name) for c in lvl.frames] != [(c["path"], c["lineno"], c["func"]) for c in frames] \
+                or str(tbi) != fmt or len(tbi) != len(frames) or tbutils.TracebackInfo.from_dict(tbi.to_dict()).frames != tbi.to_dict()["frames"]:
+            raise RuntimeError("TracebackInfo.from_frame(level=...) / str() / len() / from_dict() inconsistent")
         # the interpreter's view
         summ = traceback.extract_stack(f, limit=k)
         live = [{"file": fs.filename, "lineno": fs.lineno, "name": fs.name, "raw": fs._original_line} for fs in summ]
